@@ -25,7 +25,7 @@ META = {
     ],
     "bounds": {
         "quick": "rewrites R1 (reverse all lists), R2 (rename channels/samples/modifiers incl. POI), R3 (zero-yield sample without / with a normfactor), R4 (histosys with hi=lo=nominal, normsys with hi=lo=1), R5 (split a channel's bins into two channels), R6 (merge two samples with identical modifiers), R7 (scale signal by k, mu -> mu/k) on the applicable shapes of family F + 8 seeded shapes",
-        "thorough": "as quick on 60 seeded shapes plus compositions of two rewrites",
+        "thorough": "as quick on 200 seeded shapes plus compositions of two rewrites",
     },
     "stubs": [],
     "outside_claim": ["numerical agreement of fits / CLs / limits beyond fit tolerance, backends and optimisers (needs the real optimisers)"],
@@ -33,7 +33,7 @@ META = {
 
 
 def _family(tier, seed):
-    fam = shapes.family_core() + shapes.family_plus(seed, 8 if tier == "quick" else 60)
+    fam = shapes.family_core() + shapes.family_plus(seed, 8 if tier == "quick" else 200)
     # dedicated shape for merging: two samples with identical modifier lists
     m = shapes.model([channel("SR", sample("sig", 2, normfactor(), normsys("jes")),
                               sample("b1", 2, normsys("xs"), histosys("sh", 2), staterror("st", 2)),
